@@ -176,7 +176,7 @@ pub fn run_t<V: Scalar + Hash + PartialEq>(case: &Case, full: bool, fill: u8, ou
         });
         match r {
             None => {
-                out.push_str(&format!("{} r=P\n", i));
+                out.push_str(&format!("{} r=P{}\n", i, if buf.guards_intact() { "" } else { " g=BAD" }));
                 break;
             }
             Some(res) => {
